@@ -1359,4 +1359,91 @@ Proof.
 Qed.
 End OE.
 
+
+(* PointChargeIntegral.construct_array_contraction (with the la < lb swap) *)
+Section PC.
+Variable points : list (F * F * F * F).
+Notation PCB := (point_charge_block K points).
+
+Theorem pc_prim_perm_invariant sa sb psa psb :
+  Permutation (prims sa) psa -> Permutation (prims sb) psb ->
+  nseg (set_prims sa psa) = nseg sa -> nseg (set_prims sb psb) = nseg sb ->
+  PCB (set_prims sa psa) (set_prims sb psb) = PCB sa sb.
+Proof.
+  intros Ha Hb Na Nb. unfold point_charge_block. cbv zeta. rewrite Na, Nb.
+  change (s_l (set_prims ?s ?p)) with (s_l s). change (comps_of (set_prims ?s ?p)) with (comps_of s).
+  replace (map (fun '(cx, cy, cz, q) =>
+             (q, if s_l sa <? s_l sb then one_elec_point K cx cy cz (set_prims sb psb) (set_prims sa psa)
+                 else one_elec_point K cx cy cz (set_prims sa psa) (set_prims sb psb))) points)
+    with (map (fun '(cx, cy, cz, q) =>
+             (q, if s_l sa <? s_l sb then one_elec_point K cx cy cz sb sa
+                 else one_elec_point K cx cy cz sa sb)) points); [reflexivity|].
+  apply map_ext. intros [[[cx cy] cz] q].
+  rewrite (oe_prim_perm_invariant cx cy cz sa sb psa psb Ha Hb Na Nb).
+  now rewrite (oe_prim_perm_invariant cx cy cz sb sa psb psa Hb Ha Nb Na).
+Qed.
+
+Theorem pc_prim_split_a sa sb l1 l2 a r r1 r2 :
+  prims sa = l1 ++ (a, r) :: l2 -> r = map2 (fadd K) r1 r2 -> length r1 = length r2 ->
+  PCB (set_prims sa (l1 ++ (a, r1) :: (a, r2) :: l2)) sb = PCB sa sb.
+Proof.
+  intros Hp Hr Hl. unfold point_charge_block. cbv zeta. rewrite (nseg_split sa l1 l2 a r r1 r2 Hp Hr Hl).
+  change (s_l (set_prims ?s ?p)) with (s_l s). change (comps_of (set_prims ?s ?p)) with (comps_of s).
+  set (sa' := set_prims sa (l1 ++ (a, r1) :: (a, r2) :: l2)).
+  replace (map (fun '(cx, cy, cz, q) =>
+             (q, if s_l sa <? s_l sb then one_elec_point K cx cy cz sb sa'
+                 else one_elec_point K cx cy cz sa' sb)) points)
+    with (map (fun '(cx, cy, cz, q) =>
+             (q, if s_l sa <? s_l sb then one_elec_point K cx cy cz sb sa
+                 else one_elec_point K cx cy cz sa sb)) points); [reflexivity|].
+  apply map_ext. intros [[[cx cy] cz] q]. unfold sa'.
+  rewrite (oe_prim_split_a cx cy cz sa sb l1 l2 a r r1 r2 Hp Hr Hl).
+  now rewrite (oe_prim_split_b cx cy cz sb sa l1 l2 a r r1 r2 Hp Hr Hl).
+Qed.
+
+Theorem pc_prim_split_b sa sb l1 l2 a r r1 r2 :
+  prims sb = l1 ++ (a, r) :: l2 -> r = map2 (fadd K) r1 r2 -> length r1 = length r2 ->
+  PCB sa (set_prims sb (l1 ++ (a, r1) :: (a, r2) :: l2)) = PCB sa sb.
+Proof.
+  intros Hp Hr Hl. unfold point_charge_block. cbv zeta. rewrite (nseg_split sb l1 l2 a r r1 r2 Hp Hr Hl).
+  change (s_l (set_prims ?s ?p)) with (s_l s). change (comps_of (set_prims ?s ?p)) with (comps_of s).
+  set (sb' := set_prims sb (l1 ++ (a, r1) :: (a, r2) :: l2)).
+  replace (map (fun '(cx, cy, cz, q) =>
+             (q, if s_l sa <? s_l sb then one_elec_point K cx cy cz sb' sa
+                 else one_elec_point K cx cy cz sa sb')) points)
+    with (map (fun '(cx, cy, cz, q) =>
+             (q, if s_l sa <? s_l sb then one_elec_point K cx cy cz sb sa
+                 else one_elec_point K cx cy cz sa sb)) points); [reflexivity|].
+  apply map_ext. intros [[[cx cy] cz] q]. unfold sb'.
+  rewrite (oe_prim_split_b cx cy cz sa sb l1 l2 a r r1 r2 Hp Hr Hl).
+  now rewrite (oe_prim_split_a cx cy cz sb sa l1 l2 a r r1 r2 Hp Hr Hl).
+Qed.
+
+Lemma nth_seg_slice (l : list (list (list F))) m i :
+  nth 0 (nth i (map (fun b2 => [nth m b2 []]) l) []) [] = nth m (nth i l []) [].
+Proof.
+  revert i. induction l as [|b l IH]; intros [|i]; cbn [map nth]; try (destruct m; reflexivity). apply IH.
+Qed.
+
+(* 1. generalized = segmented for the point-charge block: the (ma, mb) slice, every point *)
+Theorem pc_generalized_is_segmented sa sb ma mb : ma < nseg sa -> mb < nseg sb ->
+  PCB (col_shell sa ma) (col_shell sb mb)
+  = mk 1 (fun _ => mk (ncomp sa) (fun ia => mk 1 (fun _ => mk (ncomp sb) (fun ib =>
+      nth ib (nth mb (nth ia (nth ma (PCB sa sb) []) []) []) [])))).
+Proof.
+  intros Hma Hmb. unfold point_charge_block. cbv zeta.
+  rewrite (nseg_col_shell sa ma Hma), (nseg_col_shell sb mb Hmb).
+  change (s_l (col_shell ?s ?m)) with (s_l s). change (comps_of (col_shell ?s ?m)) with (comps_of s).
+  unfold ncomp. apply mk_ext. intros a Ha. apply mk_ext. intros ia Hia. apply mk_ext. intros b Hb.
+  apply mk_ext. intros ib Hib. assert (a = 0%nat) by lia. assert (b = 0%nat) by lia. subst a b.
+  rewrite nth_mk by exact Hma. rewrite nth_mk by exact Hia. rewrite nth_mk by exact Hmb.
+  rewrite nth_mk by exact Hib. rewrite !map_map. apply map_ext. intros [[[cx cy] cz] q]. f_equal.
+  destruct (s_l sa <? s_l sb).
+  - rewrite (oe_generalized_is_segmented cx cy cz sb sa mb ma Hmb Hma). cbn [nth].
+    now rewrite nth_seg_slice.
+  - rewrite (oe_generalized_is_segmented cx cy cz sa sb ma mb Hma Hmb). cbn [nth].
+    now rewrite nth_seg_slice.
+Qed.
+End PC.
+
 End P.
